@@ -873,13 +873,23 @@ class E2Meta(ScriptEngine):
                 fmt, pairs = "led.fade_in({}, {})", (lit(r.choice([51, 85, 128])), lit(r.choice([0, 2, 5])))
             elif k == "flash":
                 pattern = [r.choice([0, 1, 1, 200]) for _ in range(r.randint(1, 4))]
+                if r.random() < 0.4:
+                    # a second list bound to the same literal text and really mutated: the two names are different lists
+                    twin = name("tw")
+                    target_list.append((f"{twin} = {pattern!r}",) * 2)
+                    target_list.append((r.choice([f"{twin}.append(1)", f"{twin}.remove({pattern[0]})", f"{twin}.append(0)"]),) * 2)
                 fmt, pairs = "led.flash_pattern({}, {})", (lit(pattern, "list"), lit(r.choice([0, 3, 9])))
             elif k == "servo":
                 fmt, pairs = "sv.write({})", (lit(r.choice([0, 45, 90, 170])),)
             elif k == "len_s":
                 fmt, pairs = "mon.write(len({}))", (lit(r.choice(["", "abc", "hello world"]), "str"),)
             elif k == "len_l":
-                fmt, pairs = "mon.write(len({}))", (lit([r.randint(0, 9) for _ in range(r.randint(1, 5))], "list"),)
+                items = [r.randint(0, 9) for _ in range(r.randint(1, 5))]
+                if r.random() < 0.4:
+                    twin = name("tw")
+                    target_list.append((f"{twin} = {items!r}",) * 2)
+                    target_list.append((f"{twin}.append({r.randint(0, 9)})",) * 2)
+                fmt, pairs = "mon.write(len({}))", (lit(items, "list"),)
             elif k == "glyph" and use_lcd:
                 fmt, pairs = "lcd.glyph({}, {})", ((str(r.randint(0, 7)),) * 2, lit([r.randint(0, 31) for _ in range(8)], "list"))
             elif k == "lcdw" and use_lcd:
